@@ -131,7 +131,7 @@ def sec6():
 
 t = open(V + '/DESIGN.tmpl.md').read()
 kfs = json.load(open(V + '/known_findings.json'))['findings']
-t = t.replace('@@NFIXED@@', str(sum(1 for f in kfs if f['status'] == 'fixed'))).replace('@@NKNOWN@@', str(sum(1 for f in kfs if f['status'] == 'known')) + ' is')
+t = t.replace('@@NFIXED@@', str(sum(1 for f in kfs if f['status'] == 'fixed'))).replace('@@NKNOWN@@', (lambda n: 'none is left' if n == 0 else str(n) + (' is' if n == 1 else ' are'))(sum(1 for f in kfs if f['status'] == 'known')))
 t = t.replace('@@PROPERTIES@@', sec4()).replace('@@FINDINGS@@', sec5()).replace('@@SEEDED@@', sec6())
 open(V + '/DESIGN.md', 'w').write(t)
 print('DESIGN.md', len(t.splitlines()), 'lines')
